@@ -318,6 +318,16 @@ RoundFindings(ev) ==
       THEN (IF A.shas # B.shas THEN {<<"C16", "json", "cross-parser", "">>} ELSE {})
            \cup (IF A.out # B.out \/ tms[ev.a] # tms[ev.b] THEN {<<"C06", "twins", "results-or-cache", "">>} ELSE {})
       ELSE {}
+  ELSE IF ev.kind = "late" THEN
+    \* C07, last clause: the last three calls of a were data for a template not held, its template, the same data bytes;
+    \* if the reference decodes the third call as one packet without error, so must the implementation, with its sets
+    LET A == acc[ev.a]  n == Len(A.calls) IN
+    IF n >= 3 /\ A.calls[n].buf = A.calls[n - 2].buf /\ A.calls[n].ref = "one"
+      THEN LET o == A.calls[n].out IN
+           (IF Len(o) # 1 \/ o[1].k = "err" \/ (o[1].k \in {"v9", "ipfix"} /\ o[1].sets = <<>>)
+              THEN {<<"C07", IF o # <<>> /\ o[1].k = "ipfix" THEN "ipfix" ELSE "v9", "unknown-template", "late-template-not-decoding">>}
+              ELSE {})
+      ELSE {}
   ELSE IF ev.kind = "twinsout" THEN
     \* a and b were fed the same buffers since the last mark and allow the same versions: same results
     LET A == acc[ev.a]  B == acc[ev.b] IN
@@ -344,6 +354,8 @@ RoundAnte(ev) ==
     A.nbytes = B.nbytes /\ B.calls # <<>>
       /\ \A i \in 1..Len(B.calls) : B.calls[i].ref = "one" \/ (i = Len(B.calls) /\ B.calls[i].ref = "err")
   ELSE IF ev.kind = "filter" THEN TRUE
+  ELSE IF ev.kind = "late" THEN
+    LET A == acc[ev.a]  n == Len(A.calls) IN n >= 3 /\ A.calls[n].buf = A.calls[n - 2].buf /\ A.calls[n].ref = "one"
   ELSE IF ev.kind \in {"twins", "twinsout"} THEN
     LET A == acc[ev.a]  B == acc[ev.b] IN
     [i \in 1..Len(A.calls) |-> A.calls[i].buf] = [i \in 1..Len(B.calls) |-> B.calls[i].buf]
